@@ -83,6 +83,9 @@ def cases(tier, rng):
                             yield {'k': 'ctr', 'c': c, 'cc': cc, 'how': how, 'nb': nb, 'r': r}
             for j in range(2 if tier == 'quick' else 8):
                 yield {'k': 'siblings', 'c': c, 'j': j, 'nb': 0, 'r': 0}
+            if c in ('aes128', 'tf512'):
+                for j in range(3 if tier == 'quick' else 12):
+                    yield {'k': 'ctr-same-iv', 'c': c, 'j': j, 'nb': 0, 'r': 0}
             for mode in ('cts-ecb', 'cts-cbc'):
                 for nb in range(1, 4):
                     for r in residues(n):
@@ -172,6 +175,22 @@ def run(case, ctx, rng):
         M6 = msgs(); cnt2 = (1 << (8 * h)) - 1
         specs.append(('CTR(own,wrap)', (lambda: MD.CTR(mk(), iv2[:n - h] + cnt2.to_bytes(h, 'big'))), [('enc(M6)', (lambda o: o.enc(M6)), spec_ctr(E, iv2[:n - h], cnt2, M6, n))]))
         siblings(ctx, rng, 'siblings:mode==spec', specs, late=specs.pop(), cipher=c)
+    elif k == 'ctr-same-iv':
+        # several CTR objects (different ciphers / keys, same block size) started from the same counter block, alive together
+        from vmon.core import siblings
+        ctx.cls((k, c, case['j'] % 3))
+        fam = ['aes128', 'aes256', 'serpent', 'aes192'] if n == 16 else ['tf512', 'tf512', 'tf512']
+        iv = [bytes(n), rng.randbytes(n), b'\xff' * n][case['j'] % 3]
+        h = n // 2
+        specs = []
+        for t, cc in enumerate(fam):
+            K2, T2, _ = c02.material({'c': cc, 'kp': 'rand', 'tp': 'trand'}, rng)
+            E2 = (lambda b, cc=cc, K2=K2, T2=T2: c02.ref(cc, K2, T2, b, False))
+            Mx = rng.randbytes(rng.choice([1, n, 2 * n + 5]))
+            want = spec_ctr(E2, iv[:n - h], int.from_bytes(iv[n - h:], 'big'), Mx, n)
+            specs.append(('CTR(%s)#%d' % (cc, t), (lambda cc=cc, K2=K2, T2=T2: MD.CTR(c02.build(cc, K2, T2), iv)),
+                          [('enc(M)', (lambda o, Mx=Mx: o.enc(Mx)), want), ('dec(C)', (lambda o, C=want: o.dec(C)), Mx)]))
+        siblings(ctx, rng, 'siblings:mode==spec', specs, late=specs.pop(), iv=iv)
     elif k == 'cts-ecb':
         ctx.cls((k, c, case['r'], case['nb']))
         new = lambda: MD.CTS_ECB(mk())
